@@ -8,7 +8,8 @@
     src/Type.c     Type_Cmp    = strcmp of names → `bytesCmp`
     src/Array.c List.c Tuple.c   X_Cmp           → `lexCmp elemCmp` (parallel iteration; first difference decides by
                                                    sign; the one that ends first is smaller)
-    src/Tree.c     Tree_Cmp                      → `pairsCmp keyCmp valCmp` (per entry: key, then value)
+    src/Tree.c     Tree_Cmp                      → `pairsCmp keyCmp valCmp` (per entry: key, then value; entries in the
+                                                   Tree's iteration order, which is DESCENDING in the keys: `sortedInsert`)
 
   Core Lean only (the driver links this).  Values that `cmp` returns are modelled up to what the C standard fixes: for
   `strcmp` / `memcmp` only the sign (`bytesCmp` returns -1/0/1).
@@ -72,7 +73,7 @@ def lexCmp {α β : Type} (c : α → β → Int) : List α → List β → Int
     compared as unsigned char, decides; a proper prefix is smaller (its terminating NUL is the smaller byte). -/
 def bytesCmp (a b : List UInt8) : Int := lexCmp byteCmp a b
 
-/-! ### Tree: key, then value, entry by entry in key order -/
+/-! ### Tree: key, then value, entry by entry in iteration order -/
 
 def pairsCmp {κ ν κ' ν' : Type} (ck : κ → κ' → Int) (cv : ν → ν' → Int) : List (κ × ν) → List (κ' × ν') → Int
   | [], [] => 0
@@ -155,7 +156,7 @@ inductive Val where
   | typ (name : List UInt8)
   | plain (tid : Nat) (bs : List UInt8)        -- a struct type without a Cmp instance: `tid` names the type
   | seq (k : SeqKind) (xs : List Val)
-  | tree (kvs : List (Val × Val))              -- entries in iteration (key) order
+  | tree (kvs : List (Val × Val))              -- entries in iteration order (descending keys, see `treeOf`)
   deriving Repr
 
 mutual
